@@ -15,27 +15,30 @@ TRACE_CONSTS = {"FileSize": 0, "Chunk": 32768, "MaxOps": 0, "Ops": set(), "ReadS
                 "ShortReads": False, "PipeLimit": 100, "FixClose": False, "FixOwner": True, "FixExtent": True,
                 "FixEofSave": True, "FixEmptyStart": True, "BufSize": 0, "Whences": {0}, "SeekFromRealpos": False,
                 "ReqCap": 0, "ReqThresh": 1, "RespCap": 0, "RespThresh": 1, "SendUnderLock": False,
-                "IdBeforeLock": False, "StatusNoWait": False, "FinishCountsOnce": False}
+                "IdBeforeLock": False, "StatusNoWait": False, "FinishCountsOnce": False,
+                "PrefSizes": {3}, "SeekEndFromPrefetchSize": False}
 READ_MODEL = {"FileSize": 3, "Chunk": 2, "MaxOps": 2, "Ops": {"prefetch", "read", "seek", "readv"}, "ReadSizes": {2},
               "SeekPos": {1}, "VOffs": {0, 2, 3}, "VLens": {2}, "MaxV": 2, "Limits": {0, 1}, "MaxThreads": 2,
               "WriteFaults": False, "ShortReads": True, "PipeLimit": 2, "FixClose": False, "FixOwner": False,
               "FixExtent": True, "FixEofSave": True, "FixEmptyStart": True, "BufSize": 0, "Whences": {0}, "SeekFromRealpos": False,
               "ReqCap": 0, "ReqThresh": 1, "RespCap": 0, "RespThresh": 1, "SendUnderLock": False,
-                "IdBeforeLock": False, "StatusNoWait": False, "FinishCountsOnce": False}
+                "IdBeforeLock": False, "StatusNoWait": False, "FinishCountsOnce": False,
+                "PrefSizes": {3}, "SeekEndFromPrefetchSize": False}
 WRITE_MODEL = {"FileSize": 3, "Chunk": 2, "MaxOps": 4, "Ops": {"write", "stat", "read", "close"}, "ReadSizes": {2},
                "SeekPos": {0}, "VOffs": {0}, "VLens": {1}, "MaxV": 1, "Limits": {0}, "MaxThreads": 1,
                "WriteFaults": True, "ShortReads": False, "PipeLimit": 2, "FixClose": False, "FixOwner": True,
                "FixExtent": True, "FixEofSave": True, "FixEmptyStart": True, "BufSize": 0, "Whences": {0}, "SeekFromRealpos": False,
                "ReqCap": 0, "ReqThresh": 1, "RespCap": 0, "RespThresh": 1, "SendUnderLock": False,
-                "IdBeforeLock": False, "StatusNoWait": False, "FinishCountsOnce": False}
+                "IdBeforeLock": False, "StatusNoWait": False, "FinishCountsOnce": False,
+                "PrefSizes": {3}, "SeekEndFromPrefetchSize": False}
 # seeks of all three kinds after short reads on a file with a read buffer (read-ahead), with and without prefetch
 SEEK_MODEL = dict(READ_MODEL, FileSize=6, Chunk=3, MaxOps=4, Ops={"prefetch", "read", "seek"}, ReadSizes={1, 2},
                   SeekPos={0, 1, 2}, VOffs={0}, VLens={1}, MaxV=1, Limits={0}, MaxThreads=1, ShortReads=False,
-                  BufSize=2, Whences={0, 1, 2})
+                  BufSize=2, Whences={0, 1, 2}, PrefSizes={3, 6})
 # back-pressure: credit for 3 requests handed back in lumps of 3, room for one unread response; 6 prefetch requests
 PRESSURE_MODEL = dict(READ_MODEL, FileSize=6, Chunk=1, MaxOps=3, Ops={"prefetch", "read"}, ReadSizes={2, 6}, SeekPos={0},
                       VOffs={0}, VLens={1}, MaxV=1, Limits={0}, MaxThreads=1, ShortReads=False,
-                      ReqCap=3, ReqThresh=3, RespCap=1, RespThresh=1)
+                      ReqCap=3, ReqThresh=3, RespCap=1, RespThresh=1, PrefSizes={6})
 
 
 def tla_set(xs):
@@ -132,9 +135,11 @@ def model_c28(c):
     c.mc_holds("SftpClientProto", cfg_text(constants=consts(SEEK_MODEL), invariants=sinv), name="seeks after buffered reads")
     c.mc("SftpClientProto", cfg_text(constants=consts(dict(SEEK_MODEL, SeekFromRealpos=True)), invariants=sinv),
          expect="PosAgrees", name="mutation: SEEK_CUR counts from the end of the read-ahead")
+    c.mc("SftpClientProto", cfg_text(constants=consts(dict(SEEK_MODEL, SeekEndFromPrefetchSize=True)), invariants=sinv),
+         expect="PosAgrees", name="mutation: SEEK_END uses the size prefetch(file_size=N) was given")
     # two threads inside _async_request at once: the id in the packet is the number the request is registered under
     idm = dict(READ_MODEL, FileSize=4, Chunk=1, MaxOps=3, Ops={"prefetch", "read", "seek"}, ReadSizes={1}, SeekPos={2, 3},
-               VOffs={0}, VLens={1}, MaxV=1, Limits={1}, MaxThreads=1, ShortReads=False)
+               VOffs={0}, VLens={1}, MaxV=1, Limits={1}, MaxThreads=1, ShortReads=False, PrefSizes={4})
     iinv = inv + ["RightBytes"]
     c.mc_holds("SftpClientProto", cfg_text(constants=consts(idm), invariants=iinv), name="capped prefetch and reader requesting together")
     c.mc("SftpClientProto", cfg_text(constants=consts(dict(idm, IdBeforeLock=True)), invariants=iinv), expect="RightBytes|NoHang",
@@ -253,6 +258,11 @@ def directed_programs():
                         {"op": "read", "n": 100000}, {"op": "seek", "p": 10}, {"op": "read", "n": 50000}], 20)
     add(200000, True, [{"op": "prefetch", "maxc": 0, "fsize": False}, {"op": "seek", "p": 100000}, {"op": "read", "n": 400000},
                        {"op": "seek", "p": 0}, {"op": "read", "n": 400000}], 21)
+    # prefetch(file_size=N) of the head of a bigger file, then seeks relative to the END of the file
+    for cap, bs in ((0, -1), (1, -1), (4, 4096)):
+        add(307123, False, [{"op": "prefetch", "maxc": cap, "fsize": 100000}, {"op": "seek", "p": -500, "whence": 2},
+                            {"op": "read", "n": 500}, {"op": "seek", "p": 10, "whence": 0}, {"op": "read", "n": 100},
+                            {"op": "seek", "p": -250000, "whence": 2}, {"op": "read", "n": 1000}], 25, bs)
     # seeks of all three kinds after short reads, with a read buffer (read-ahead) and with the default
     for bs in (-1, 4096, 512, 40000):
         add(200000, False, [{"op": "prefetch", "maxc": 0, "fsize": True}, {"op": "read", "n": 16},
@@ -281,7 +291,7 @@ def run(c):
                          "origin": "model program %d" % i})
     nmodel = len(programs)
     programs += directed_programs() + gated_programs()
-    for i in range(150 if c.quick else 1500):
+    for i in range(140 if c.quick else 1500):
         sz = rnd.choice([0, 1, 1000, 32768, 32769, 65536, 100000, 200000, 307200, rnd.randint(0, 307200)])
         programs.append({"size": sz, "short": rnd.random() < 0.5, "seed": c.seed * 100003 + i,
                          "bufsize": rnd.choice([-1, -1, 512, 4096, 40000]),
